@@ -219,6 +219,17 @@ F17_BIND = dict(kind="logic-not-bound", cause="guards-nested-in-composites-not-s
 
 F17_IDENT = dict(kind="logic-not-bound", cause="name-is-not-a-python-identifier")
 F17_ONDONE = dict(kind="logic-not-bound", cause="names-only-in-state-onDone-not-stubbed")
+F17_ACRONYM = dict(kind="logic-not-bound", cause="camel-snake-round-trip-loses-acronym-capitals")
+
+
+def roundtrips(name):
+    """does the generator's camelCase -> snake_case stub name map back, by the loader's snake_case -> camelCase rule,
+    to the name the machine references?  ('dialogIsCCIOrAdminPaywall' -> 'dialog_is_cci_or_admin_paywall' ->
+    'dialogIsCciOrAdminPaywall' does not)"""
+    from xstate_statemachine.cli.utils import camel_to_snake
+    from xstate_statemachine.logic_loader import _snake_to_camel
+    sn = camel_to_snake(name)
+    return sn == name or _snake_to_camel(sn) == name
 
 
 def occurrences(v, name, path=()):
@@ -241,6 +252,11 @@ def bind_signature(cfg, what):
     import keyword
     if not name.isidentifier() or keyword.iskeyword(name) or name.startswith("__"):
         return F17_IDENT
+    try:
+        if not roundtrips(name):
+            return F17_ACRONYM
+    except Exception:
+        pass
     occ = list(occurrences(cfg, name))
     if not occ:
         return None
